@@ -46,6 +46,57 @@ type env struct {
 	pkgPath string
 	imports map[string]string
 	depth   int
+	facts   *[]string // heap well-formedness facts about values loaded by the expression
+	inQ     int       // inside a quantifier: loads may mention bound variables
+}
+
+// wellFormed records that a reference or slice read from the heap in state st is allocated there.
+func (e *env) wellFormed(term string, xt XT) {
+	if e.facts == nil || e.inQ > 0 || e.st == nil {
+		return
+	}
+	switch xt.S {
+	case "Ref":
+		*e.facts = append(*e.facts, app("<", app("rootid", term), e.g.svGet(e.st, "$nxt", "Int")))
+	case "Slice":
+		*e.facts = append(*e.facts, app("validslice", term), app("<", app("sbase", term), e.g.svGet(e.st, "$nxt", "Int")))
+	}
+}
+
+// trAssert: the clause as a proof obligation (well-formedness facts are hypotheses).
+func (e *env) trAssert(x Expr) (string, error) {
+	var facts []string
+	n := *e
+	n.facts = &facts
+	t, err := n.trBool(x)
+	if err != nil {
+		return "", err
+	}
+	return implies(and(dedupe(facts)...), t), nil
+}
+
+// trAssume: the clause as an assumption (well-formedness facts are assumed along with it).
+func (e *env) trAssume(x Expr) (string, error) {
+	var facts []string
+	n := *e
+	n.facts = &facts
+	t, err := n.trBool(x)
+	if err != nil {
+		return "", err
+	}
+	return and(append(dedupe(facts), t)...), nil
+}
+
+func dedupe(xs []string) []string {
+	seen := map[string]bool{}
+	var out []string
+	for _, x := range xs {
+		if !seen[x] {
+			seen[x] = true
+			out = append(out, x)
+		}
+	}
+	return out
 }
 
 func (e *env) with(name string, b binding) *env {
@@ -535,7 +586,11 @@ func (e *env) tr(x Expr) (Val, XT, error) {
 			if sl, ok := xt.T.Underlying().(*types.Slice); ok {
 				s := v.(string)
 				ref := app("eref", s, iv.(string))
-				return g.loadAt(e.st, ref, sl.Elem()), xtOf(sl.Elem()), nil
+				lv := g.loadAt(e.st, ref, sl.Elem())
+				if ls, ok := lv.(string); ok {
+					e.wellFormed(ls, xtOf(sl.Elem()))
+				}
+				return lv, xtOf(sl.Elem()), nil
 			}
 		}
 		return nil, XT{}, e.errf("cannot index %s", x.X)
@@ -598,6 +653,9 @@ func (e *env) tr(x Expr) (Val, XT, error) {
 				}
 			}
 		}
+		nq := *n
+		nq.inQ = e.inQ + 1
+		n = &nq
 		body, err := n.trBool(x.Body)
 		if err != nil {
 			return nil, XT{}, err
@@ -670,7 +728,9 @@ func (e *env) selectField(v Val, xt XT, sel string, x Expr) (Val, XT, error) {
 					return g.loadAt(e.st, app("fld", v.(string), fmt.Sprint(i)), f.Type()), xtOf(f.Type()), nil
 				}
 				m := g.svGet(e.st, fieldMapName(st, f.Name()), "(Array Ref "+sortOf(f.Type())+")")
-				return app("select", m, v.(string)), xtOf(f.Type()), nil
+				ld := app("select", m, v.(string))
+				e.wellFormed(ld, xtOf(f.Type()))
+				return ld, xtOf(f.Type()), nil
 			}
 		}
 		// ghost field
@@ -1049,6 +1109,20 @@ func (e *env) trCall(x *ECall) (Val, XT, error) {
 		if !ok {
 			return nil, XT{}, e.errf("deref of non-pointer %s", x.Args[0])
 		}
+		// a pointer obtained by taking a field's address reads that field
+		key := v
+		if m := unboxRe.FindStringSubmatch(key); m != nil {
+			key = m[1]
+		}
+		if fa, ok := g.fieldRefs[key]; ok {
+			if lv, ok := g.localCell[fa.base+"#"+fa.field.Name()]; ok {
+				return g.svGet(e.st, lv, sortOf(fa.field.Type())), xtOf(fa.field.Type()), nil
+			}
+			if _, isS := isStruct(fa.field.Type()); !isS {
+				m := g.svGet(e.st, fieldMapName(fa.structT, fa.field.Name()), "(Array Ref "+sortOf(fa.field.Type())+")")
+				return app("select", m, fa.base), xtOf(fa.field.Type()), nil
+			}
+		}
 		return g.loadAt(e.st, v, p.Elem()), xtOf(p.Elem()), nil
 	case "isnil":
 		v, xt, err := argv(0)
@@ -1168,10 +1242,50 @@ func (e *env) trCall(x *ECall) (Val, XT, error) {
 		g.c.declareFun(fname, sorts, resXT.S)
 		return app(fname, terms...), resXT, nil
 	}
-	if e.depth > 12 {
+	if e.depth > 40 {
 		return nil, XT{}, e.errf("spec function expansion too deep (recursive?) at %s", x.Fn)
 	}
-	n := &env{g: g, vars: map[string]binding{}, st: e.st, old: e.old, pkgPath: sf.PkgPath, imports: sf.Imports, depth: e.depth + 1}
+	if g.pureSpec(sf) {
+		// a state-independent spec function becomes an SMT define-fun, applied by name
+		fname := "d_" + sanitize(x.Fn)
+		if !g.c.declared[fname] {
+			g.c.declared[fname] = true
+			n := &env{g: g, vars: map[string]binding{}, st: &State{m: map[string]string{}}, old: &State{m: map[string]string{}}, pkgPath: sf.PkgPath, imports: sf.Imports, depth: e.depth + 1}
+			var ps []string
+			for i, p := range sf.Params {
+				pn := fmt.Sprintf("a_%s", p.Name)
+				n.vars[p.Name] = binding{pn, argXT[i]}
+				ps = append(ps, "("+pn+" "+argXT[i].S+")")
+			}
+			bv, bxt, err := n.tr(sf.Body)
+			if err != nil {
+				return nil, XT{}, fmt.Errorf("in %s: %v", x.Fn, err)
+			}
+			bs, ok := bv.(string)
+			if !ok {
+				return nil, XT{}, e.errf("%s: composite result", x.Fn)
+			}
+			if bxt.S == "NIL" {
+				bs = zeroOfSort(resXT.S)
+			} else if bxt.S != resXT.S {
+				return nil, XT{}, e.errf("%s: body has sort %s, declared %s", x.Fn, bxt.S, resXT.S)
+			}
+			g.c.decls = append(g.c.decls, fmt.Sprintf("(define-fun %s (%s) %s %s)", fname, strings.Join(ps, " "), resXT.S, bs))
+		}
+		var terms []string
+		for _, v := range argVals {
+			s, ok := v.(string)
+			if !ok {
+				return nil, XT{}, e.errf("%s: composite argument", x.Fn)
+			}
+			terms = append(terms, s)
+		}
+		if len(terms) == 0 {
+			return fname, resXT, nil
+		}
+		return app(fname, terms...), resXT, nil
+	}
+	n := &env{g: g, vars: map[string]binding{}, st: e.st, old: e.old, pkgPath: sf.PkgPath, imports: sf.Imports, depth: e.depth + 1, facts: e.facts, inQ: e.inQ}
 	for i, p := range sf.Params {
 		n.vars[p.Name] = binding{argVals[i], argXT[i]}
 	}
@@ -1211,4 +1325,67 @@ func (e *env) trAddr(x Expr) (string, types.Type, bool) {
 		}
 	}
 	return "", nil, false
+}
+
+// pureSpec: the body of the spec function does not read the heap, ghost state or snapshots.
+func (g *gen) pureSpec(sf *SpecFunc) bool {
+	if v, ok := g.pureCache[sf]; ok {
+		return v
+	}
+	g.pureCache[sf] = false // cycles are impure
+	params := map[string]bool{}
+	for _, p := range sf.Params {
+		params[p.Name] = true
+		// pointer / slice / interface typed parameters imply heap reads through them
+		if p.Type.Kind == "ptr" || p.Type.Kind == "slice" {
+			return false
+		}
+	}
+	stateful := map[string]bool{"contents": true, "contentsN": true, "held": true, "rheld": true, "anyheld": true, "nolocks": true, "fresh": true,
+		"allocated": true, "allocatedBefore": true, "deref": true, "has": true, "box": true, "reMatchLit": true, "elemaddr": true}
+	var ok func(x Expr, bound map[string]bool) bool
+	ok = func(x Expr, bound map[string]bool) bool {
+		switch x := x.(type) {
+		case *EInt, *EStr, *EBool, *ENil:
+			return true
+		case *EIdent:
+			return params[x.Name] || bound[x.Name]
+		case *ESel, *EOld, *EAt:
+			return false
+		case *EIndex:
+			return ok(x.X, bound) && ok(x.I, bound)
+		case *EUn:
+			return ok(x.X, bound)
+		case *EBin:
+			return ok(x.L, bound) && ok(x.R, bound)
+		case *EIte:
+			return ok(x.C, bound) && ok(x.A, bound) && ok(x.B, bound)
+		case *EQuant:
+			nb := map[string]bool{}
+			for k := range bound {
+				nb[k] = true
+			}
+			for _, v := range x.Vars {
+				nb[v.Name] = true
+			}
+			return ok(x.Body, nb)
+		case *ECall:
+			if stateful[x.Fn] {
+				return false
+			}
+			if callee := g.P.spec.Preds[x.Fn]; callee != nil && callee.Body != nil && !g.pureSpec(callee) {
+				return false
+			}
+			for _, a := range x.Args {
+				if !ok(a, bound) {
+					return false
+				}
+			}
+			return true
+		}
+		return false
+	}
+	r := ok(sf.Body, map[string]bool{})
+	g.pureCache[sf] = r
+	return r
 }
